@@ -120,6 +120,10 @@ func c17Run(rc *RunCtx, params any) {
 		rules.Partitions = [][2]int64{{p.CutNs, int64(2 * horizon)}}
 	}
 	rc.Note("proto", protoTag(v.C, v.S))
+	// sixteen virtual minutes at a 20 ms constant interval are ~50000 legitimate
+	// retransmissions: this scenario has its own storm oracle, so the generic
+	// emission budget is lifted and the step budget raised
+	s.MaxEmits, s.MaxSteps = 0, 600_000
 	n := NewSimNet(s, rules)
 	pair, err := NewPair(s, n, v.C, v.S, nil)
 	if err != nil {
